@@ -180,6 +180,17 @@ def run(ctx):
     # ---- type checks
     e = npc.Experiment([0, 1], [[1.0], [2.0]])
     tests = npc.Experiment.make_test_array(npc.Experiment.TestFunc.mean_diff, [0])
+    weird = [None, 3, "x", [1, 2], {"a": 1}, np.array([1, 2]), (np.array([0, 1]), np.array([[1.0], [2.0]])), (), (1,), (1, 2, 3), npc.randomize_group, npc.Experiment]
+    for obj in weird:
+        for what, call in [("sim_npc with data of type " + type(obj).__name__, lambda obj=obj: npc.sim_npc(obj, tests)),
+                           ("westfall_young with data of type " + type(obj).__name__, lambda obj=obj: npc.westfall_young(obj, tests)),
+                           ("Experiment with a randomizer of type " + type(obj).__name__, lambda obj=obj: npc.Experiment([0, 1], [[1.0], [2.0]], randomizer=obj))]:
+            if obj is None and what.startswith("Experiment"):
+                continue            # randomizer=None is the documented default
+            r = guarded(call)
+            ctx.case(("type", what, repr(obj)[:40]), True); ctx.count("type-checks")
+            if not (r[0] == "exc" and r[1] == "ValueError"):
+                ctx.violation("oracle", {"issue": what + " is not rejected with ValueError", "object": repr(obj)[:80], "returned": str(r[1:])[:160]}, site="Experiment")
     for what, call in [("sim_npc with data that is not an Experiment", lambda: npc.sim_npc("x", tests)),
                        ("westfall_young with data that is not an Experiment", lambda: npc.westfall_young([1, 2], tests)),
                        ("Experiment with a randomizer that is not a Randomizer", lambda: npc.Experiment([0, 1], [[1.0], [2.0]], randomizer=npc.randomize_group))]:
@@ -204,31 +215,32 @@ def run(ctx):
             resp = [[v + off for v in r_] for r_ in resp]; ctx.count("response-on-a-large-baseline")
         slack = 512 * n * 10 * off * 2.0 ** -52
         e = npc.Experiment(group, resp)
-        idx = ctx.rng.randint(0, 1)
+        idx_arg = ctx.rng.choice([0, 1, 0, 1, -1, -2])      # -1 / -2 are the legal way to ask for the last / last-but-one column
+        idx = idx_arg % 2
         code = intern(group)
         col = [F(r_[idx]) for r_ in resp]
         u = sorted(set(group), key=lambda v: code[v])
         ctx.case(("tf", tuple(group), tuple(map(tuple, resp)), idx), True); ctx.count("test-functions")
-        det = {"call": "TestFunc", "group": group, "response": resp, "index": idx}
+        det = {"call": "TestFunc", "group": group, "response": resp, "index": idx_arg}
         arr = npc.Experiment.make_test_array(npc.Experiment.TestFunc.mean_diff, [0, 1])
         if len(u) == 2:
             a = [c for c, g in zip(col, group) if g == u[0]]; b = [c for c, g in zip(col, group) if g == u[1]]
             want = sum(a) / len(a) - sum(b) / len(b)
-            r = guarded(npc.Experiment.TestFunc.mean_diff, e, idx); r2 = guarded(arr[idx], e)
+            r = guarded(npc.Experiment.TestFunc.mean_diff, e, idx_arg); r2 = guarded(arr[idx], e)
             if r[0] != "ok" or not close(r[1], want, ab=1e-12 + slack) or r2[0] != "ok" or r2[1] != r[1]:
                 det.update({"issue": "mean_diff is not the difference in means of the first group (sorted label order) against the second, or make_test_array(func, indices)[i](data) != func(data, indices[i])",
                             "returned": [r[1:], r2[1:]], "expected": float(want)}); ctx.violation("oracle", det, site="TestFunc")
-            rt_ = guarded(npc.Experiment.TestFunc.ttest, e, idx)
+            rt_ = guarded(npc.Experiment.TestFunc.ttest, e, idx_arg)
             ops.append(f"testfunc|mean_diff|{idx}|{ints([code[v] for v in group])}|{rows(resp)}"); meta.append(("tf", det, r, slack))
             if len(a) + len(b) > 2 and (len(set(a)) > 1 or len(set(b)) > 1) and len(a) > 0 and len(b) > 0:
                 ops.append(f"testfunc|ttest|{idx}|{ints([code[v] for v in group])}|{rows(resp)}"); meta.append(("tt", det, rt_, slack))
         else:
-            r = guarded(npc.Experiment.TestFunc.mean_diff, e, idx)
+            r = guarded(npc.Experiment.TestFunc.mean_diff, e, idx_arg)
             if not (r[0] == "exc" and r[1] == "ValueError"):
                 det.update({"issue": "mean_diff with a number of groups other than two is not rejected", "returned": r[1:]}); ctx.violation("oracle", det, site="TestFunc")
         m = sum(col) / len(col)
         want = sum((sum(c for c, g in zip(col, group) if g == k) / group.count(k) - m) ** 2 * group.count(k) for k in set(group))
-        r = guarded(npc.Experiment.TestFunc.one_way_anova, e, idx)
+        r = guarded(npc.Experiment.TestFunc.one_way_anova, e, idx_arg)
         if r[0] != "ok" or not close(r[1], want, ab=1e-12 + slack):
             det.update({"issue": "one_way_anova is not the size-weighted between-group sum of squares", "returned": r[1:], "expected": float(want)}); ctx.violation("oracle", det, site="TestFunc")
         ops.append(f"testfunc|one_way_anova|{idx}|{ints([code[v] for v in group])}|{rows(resp)}"); meta.append(("tf", det, r, slack))
